@@ -64,7 +64,6 @@ class Any(pg.Any):
         """
         if len(self.propositions) == 2 and any(map(lambda x: hasattr(x, 'prio'), self.propositions)):
             d = {
-                "id": self.id,
                 "type": "Any",
                 "propositions": list(
                     itertools.chain(
@@ -87,6 +86,8 @@ class Any(pg.Any):
                     ),
                 ),
             }
+            if not self.generated_id:
+                d["id"] = self.id
         else:
             d = super().to_json()
 
@@ -169,7 +170,6 @@ class Xor(pg.Xor):
     def to_json(self):
         if self.default:
             d = {
-                "id": self.id,
                 "type": "Xor",
                 "propositions": list(
                     map(
@@ -179,6 +179,8 @@ class Xor(pg.Xor):
                 ),
                 "default": list(map(lambda x: x.to_json(), self.default))
             }
+            if not self.generated_id:
+                d["id"] = self.id
         else:
             d = super().to_json()
 
